@@ -336,6 +336,9 @@ class PrintrunWriter(BaseWriter):
             self._logger.debug("Device message: %s", message)
 
             if lower_message.startswith(SUCCESS_PREFIXES):
+                # Acknowledgments may carry a report ("ok T:200.5 /210.0"),
+                # make its readings available before write() returns
+                self._parse_message(message)
                 self._ack_event.set()
                 return
             elif lower_message.startswith(ERROR_PREFIXES):
